@@ -1,6 +1,7 @@
 import Zc.Model.Shutdown
 import Zc.GenFacts.Shutdown
-/-! Helper lemmas for C17: the send gate, the frame of interleaved blocks, `run` over appended histories. -/
+/-! Helper lemmas for C17: the send gate, what one block can do to the flags and to the list of close calls
+(`step_summary`), the frame of blocks interleaved with a close, `run` over appended histories. -/
 namespace Zc.Shutdown
 open Zc.GenFacts.Shutdown
 
@@ -10,9 +11,14 @@ theorem gated_of_done (h : Host) (hd : h.done = true) (o : List Out) : gated h o
 theorem gated_of_not_done (h : Host) (hd : h.done = false) (o : List Out) : gated h o = o := by
   simp [gated, hd, send_open_of_not_done]
 
-theorem gated_no_goodbye (h : Host) (l : List Out) (hl : count isGoodbye l = 0) : count isGoodbye (gated h l) = 0 := by
+theorem gated_sub (h : Host) (l : List Out) : gated h l = [] ∨ gated h l = l := by
   unfold gated
   split
+  · exact Or.inl rfl
+  · exact Or.inr rfl
+
+theorem gated_no_goodbye (h : Host) (l : List Out) (hl : count isGoodbye l = 0) : count isGoodbye (gated h l) = 0 := by
+  rcases gated_sub h l with e | e <;> rw [e]
   · rfl
   · exact hl
 
@@ -34,95 +40,306 @@ theorem count_notify (h : Host) (u : Bool) : count isGoodbye (notify h u) = 0 :=
 theorem count_append (p : Out → Bool) (a b : List Out) : count p (a ++ b) = count p a + count p b := by
   simp [count, List.filter_append]
 
-/-- the frame of a mid block: it cannot touch the flags the close depends on, nor the registry, nor emit a goodbye -/
-theorem mid_step (h : Host) (b : Block) (hb : b.mid = true) (h' : Host) (o : List Out) (hs : step h b = some (h', o)) :
-    h'.done = h.done ∧ h'.stage = h.stage ∧ h'.registry = h.registry ∧ h'.transportsClosed = h.transportsClosed
-      ∧ count isGoodbye o = 0 := by
+/-! ### the list of close calls -/
+
+theorem mem_setStage {h : Host} {i : Nat} {s : Bool} {st : CStage} {c : Close}
+    (hc : c ∈ (h.setStage i s st).closes) : c = ⟨s, st⟩ ∨ c ∈ h.closes := by
+  simp only [Host.setStage] at hc
+  rcases List.mem_or_eq_of_mem_set hc with hm | he
+  · exact Or.inr hm
+  · exact Or.inl he
+
+theorem any_set_of_not : ∀ (l : List Close) (i : Nat) (c c' : Close), l[i]? = some c → c.isReturned = false →
+    l.any Close.isReturned = true → (l.set i c').any Close.isReturned = true := by
+  intro l
+  induction l with
+  | nil => intro i c c' hi; simp at hi
+  | cons x xs ih =>
+    intro i c c' hi hc ha
+    cases i with
+    | zero =>
+      simp only [List.getElem?_cons_zero, Option.some.injEq] at hi
+      subst hi
+      simp only [List.any_cons, hc, Bool.false_or] at ha
+      simp [List.set, ha]
+    | succ j =>
+      simp only [List.getElem?_cons_succ] at hi
+      simp only [List.any_cons, Bool.or_eq_true] at ha
+      simp only [List.set, List.any_cons, Bool.or_eq_true]
+      rcases ha with ha | ha
+      · exact Or.inl ha
+      · exact Or.inr (ih j c c' hi hc ha)
+
+theorem any_append_of (l : List Close) (x : Close) (h : l.any Close.isReturned = true) :
+    (l ++ [x]).any Close.isReturned = true := by
+  simp [List.any_append, h]
+
+/-- the three implications of `WF`, for one close call -/
+def WFc (h : Host) (c : Close) : Prop :=
+  (c.stage = .doneSet → h.done = true) ∧
+  (c.stage = .shutdown → h.done = true ∧ h.transportsClosed = true) ∧
+  (c.stage = .returned → h.done = true ∧ h.transportsClosed = true ∧ h.cleanupArmed = false)
+
+theorem WF_iff (h : Host) : WF h ↔ ∀ c ∈ h.closes, WFc h c := Iff.rfl
+
+theorem WFc_mono {h h' : Host} {c : Close} (d : h.done = true → h'.done = true)
+    (t : h.transportsClosed = true → h'.transportsClosed = true) (u : h.cleanupArmed = false → h'.cleanupArmed = false)
+    (w : WFc h c) : WFc h' c :=
+  ⟨fun e => d (w.1 e), fun e => ⟨d (w.2.1 e).1, t (w.2.1 e).2⟩,
+   fun e => ⟨d (w.2.2 e).1, t (w.2.2 e).2.1, u (w.2.2 e).2.2⟩⟩
+
+/-- what any single block can do to the flags and the close calls -/
+structure Summary (h h' : Host) : Prop where
+  done_mono : h.done = true → h'.done = true
+  tc_mono : h.transportsClosed = true → h'.transportsClosed = true
+  cu_mono : h.cleanupArmed = false → h'.cleanupArmed = false
+  closes : ∀ c ∈ h'.closes, c ∈ h.closes ∨ WFc h' c
+  ret_mono : h.closes.any Close.isReturned = true → h'.closes.any Close.isReturned = true
+
+theorem Summary.same {h h' : Host} (e1 : h'.done = h.done) (e2 : h'.transportsClosed = h.transportsClosed)
+    (e3 : h'.cleanupArmed = h.cleanupArmed) (e4 : h'.closes = h.closes) : Summary h h' :=
+  ⟨fun x => e1 ▸ x, fun x => e2 ▸ x, fun x => e3 ▸ x, fun c hc => Or.inl (e4 ▸ hc), fun x => e4 ▸ x⟩
+
+theorem closeBody_flags (h : Host) (s : Bool) :
+    (closeBody h s).1.done = h.done ∧ (closeBody h s).1.transportsClosed = h.transportsClosed ∧
+      (closeBody h s).1.cleanupArmed = h.cleanupArmed ∧ (closeBody h s).1.closes = h.closes ∧
+      (closeBody h s).1.registry = 0 ∧ (closeBody h s).1.running = h.running := by
+  simp [closeBody]
+
+theorem closeBody_stage (h : Host) (s : Bool) : ∃ k, (closeBody h s).2.2 = .unregistering k := by
+  simp [closeBody]
+
+theorem WFc_unreg (h : Host) (s : Bool) (k : Nat) : WFc h ⟨s, .unregistering k⟩ := by
+  simp [WFc]
+
+theorem WFc_waiting (h : Host) (s : Bool) : WFc h ⟨s, .waitingStart⟩ := by simp [WFc]
+theorem WFc_aborted (h : Host) (s : Bool) : WFc h ⟨s, .aborted⟩ := by simp [WFc]
+
+theorem step_summary (h : Host) (b : Block) (h' : Host) (o : List Out) (hw : WF h) (hs : step h b = some (h', o)) : Summary h h' := by
   cases b with
   | recv s q d u =>
     simp only [step] at hs
     split at hs
     · simp at hs
     · simp only [Option.some.injEq, Prod.mk.injEq] at hs
-      obtain ⟨rfl, rfl⟩ := hs
-      refine ⟨rfl, rfl, rfl, rfl, ?_⟩
-      rw [count_append, gated_no_goodbye h _ (count_replicate_send s), count_notify]
+      obtain ⟨rfl, _⟩ := hs
+      exact Summary.same rfl rfl rfl rfl
   | outqFire r =>
     simp only [step] at hs
     split at hs
     · simp at hs
     · simp only [Option.some.injEq, Prod.mk.injEq] at hs
-      obtain ⟨rfl, rfl⟩ := hs
-      refine ⟨rfl, rfl, rfl, rfl, gated_no_goodbye h _ ?_⟩
-      split <;> simp [count, isGoodbye]
+      obtain ⟨rfl, _⟩ := hs
+      exact Summary.same rfl rfl rfl rfl
   | tcFire s q =>
     simp only [step] at hs
     split at hs
     · simp at hs
     · simp only [Option.some.injEq, Prod.mk.injEq] at hs
-      obtain ⟨rfl, rfl⟩ := hs
-      exact ⟨rfl, rfl, rfl, rfl, gated_no_goodbye h _ (count_replicate_send s)⟩
+      obtain ⟨rfl, _⟩ := hs
+      exact Summary.same rfl rfl rfl rfl
   | schedFire i q =>
     simp only [step] at hs
     split at hs
     · simp at hs
     · split at hs
       · simp at hs
-      · split at hs
+      · split at hs <;>
         · simp only [Option.some.injEq, Prod.mk.injEq] at hs
-          obtain ⟨rfl, rfl⟩ := hs
-          exact ⟨rfl, rfl, rfl, rfl, rfl⟩
-        · simp only [Option.some.injEq, Prod.mk.injEq] at hs
-          obtain ⟨rfl, rfl⟩ := hs
-          exact ⟨rfl, rfl, rfl, rfl, gated_no_goodbye h _ (count_replicate_send q)⟩
+          obtain ⟨rfl, _⟩ := hs
+          exact Summary.same rfl rfl rfl rfl
   | cleanupFire e =>
     simp only [step] at hs
     split at hs
     · simp at hs
     · simp only [Option.some.injEq, Prod.mk.injEq] at hs
-      obtain ⟨rfl, rfl⟩ := hs
-      exact ⟨rfl, rfl, rfl, rfl, count_notify h e⟩
+      obtain ⟨rfl, _⟩ := hs
+      exact Summary.same rfl rfl rfl rfl
   | probeStep l =>
-    cases l with
-    | true => simp [Block.mid] at hb
-    | false =>
-      simp only [step] at hs
-      split at hs
-      · simp at hs
-      · simp only [Bool.false_eq_true, ↓reduceIte, Option.some.injEq, Prod.mk.injEq] at hs
-        obtain ⟨rfl, rfl⟩ := hs
-        exact ⟨rfl, rfl, rfl, rfl, gated_no_goodbye h _ (by simp [count, isGoodbye])⟩
+    simp only [step] at hs
+    split at hs
+    · simp at hs
+    · simp only [Option.some.injEq, Prod.mk.injEq] at hs
+      obtain ⟨rfl, _⟩ := hs
+      split <;> exact Summary.same rfl rfl rfl rfl
   | announceStep l =>
     simp only [step] at hs
     split at hs
     · simp at hs
     · simp only [Option.some.injEq, Prod.mk.injEq] at hs
-      obtain ⟨rfl, rfl⟩ := hs
-      refine ⟨?_, ?_, ?_, ?_, gated_no_goodbye h _ (by simp [count, isGoodbye])⟩ <;> split <;> rfl
+      obtain ⟨rfl, _⟩ := hs
+      split <;> exact Summary.same rfl rfl rfl rfl
   | lookupStep s f =>
     simp only [step] at hs
     split at hs
     · simp at hs
     · simp only [Option.some.injEq, Prod.mk.injEq] at hs
-      obtain ⟨rfl, rfl⟩ := hs
-      refine ⟨?_, ?_, ?_, ?_, gated_no_goodbye h _ (count_replicate_send s)⟩ <;> split <;> rfl
-  | closeCall => simp [Block.mid] at hb
-  | closeGoodbye => simp [Block.mid] at hb
-  | closeShutdown => simp [Block.mid] at hb
-  | closeFinish => simp [Block.mid] at hb
+      obtain ⟨rfl, _⟩ := hs
+      split <;> exact Summary.same rfl rfl rfl rfl
+  | startUp =>
+    simp only [step] at hs
+    split at hs
+    · simp at hs
+    · simp only [Option.some.injEq, Prod.mk.injEq] at hs
+      obtain ⟨rfl, _⟩ := hs
+      exact Summary.same rfl rfl rfl rfl
+  | apiCall k =>
+    simp only [step] at hs
+    split at hs
+    · simp only [Option.some.injEq, Prod.mk.injEq] at hs
+      obtain ⟨rfl, _⟩ := hs
+      exact Summary.same rfl rfl rfl rfl
+    · split at hs
+      · simp at hs
+      · cases k <;>
+        · simp only [Option.some.injEq, Prod.mk.injEq] at hs
+          obtain ⟨rfl, _⟩ := hs
+          exact Summary.same rfl rfl rfl rfl
+  | closeCall sync =>
+    simp only [step] at hs
+    split at hs
+    · simp only [Option.some.injEq, Prod.mk.injEq] at hs
+      obtain ⟨rfl, _⟩ := hs
+      refine ⟨id, id, id, ?_, fun x => any_append_of _ _ x⟩
+      intro c hc
+      simp only [List.mem_append, List.mem_singleton] at hc
+      rcases hc with hc | rfl
+      · exact Or.inl hc
+      · exact Or.inr (WFc_waiting _ _)
+    · simp only [Option.some.injEq, Prod.mk.injEq] at hs
+      obtain ⟨rfl, _⟩ := hs
+      obtain ⟨f1, f2, f3, _, _, _⟩ := closeBody_flags h sync
+      obtain ⟨k, hk⟩ := closeBody_stage h sync
+      refine ⟨fun x => by simpa [f1] using x, fun x => by simpa [f2] using x, fun x => by simpa [f3] using x, ?_,
+        fun x => any_append_of _ _ x⟩
+      intro c hc
+      simp only [List.mem_append, List.mem_singleton] at hc
+      rcases hc with hc | rfl
+      · exact Or.inl hc
+      · rw [hk]; exact Or.inr (WFc_unreg _ _ _)
+  | closeWake i t =>
+    simp only [step] at hs
+    split at hs
+    · rename_i hi
+      have hnr : (⟨false, CStage.waitingStart⟩ : Close).isReturned = false := rfl
+      have body : ∀ h2 o2, (let r := closeBody h false; some (r.1.setStage i false r.2.2, r.2.1)) = some (h2, o2) → Summary h h2 := by
+        intro h2 o2 he
+        simp only [Option.some.injEq, Prod.mk.injEq] at he
+        obtain ⟨rfl, _⟩ := he
+        obtain ⟨f1, f2, f3, f4, _, _⟩ := closeBody_flags h false
+        obtain ⟨k, hk⟩ := closeBody_stage h false
+        refine ⟨fun x => by simpa [Host.setStage, f1] using x, fun x => by simpa [Host.setStage, f2] using x,
+          fun x => by simpa [Host.setStage, f3] using x, ?_, ?_⟩
+        · intro c hc
+          rcases mem_setStage hc with rfl | hm
+          · rw [hk]; exact Or.inr (WFc_unreg _ _ _)
+          · exact Or.inl (f4 ▸ hm)
+        · intro x
+          simp only [Host.setStage, f4]
+          exact any_set_of_not _ i _ _ hi hnr x
+      split at hs
+      · exact body _ _ hs
+      · split at hs
+        · simp at hs
+        · split at hs
+          · simp only [Option.some.injEq, Prod.mk.injEq] at hs
+            obtain ⟨rfl, _⟩ := hs
+            refine ⟨id, id, id, ?_, fun x => any_set_of_not _ i _ _ hi hnr x⟩
+            intro c hc
+            rcases mem_setStage hc with rfl | hm
+            · exact Or.inr (WFc_aborted _ _)
+            · exact Or.inl hm
+          · exact body _ _ hs
+    · simp at hs
+  | closeGoodbye i =>
+    simp only [step] at hs
+    split at hs
+    · rename_i sync k hi
+      simp only [Option.some.injEq, Prod.mk.injEq] at hs
+      obtain ⟨rfl, _⟩ := hs
+      refine ⟨id, id, id, ?_, fun x => any_set_of_not _ i _ _ hi rfl x⟩
+      intro c hc
+      rcases mem_setStage hc with rfl | hm
+      · exact Or.inr (WFc_unreg _ _ _)
+      · exact Or.inl hm
+    · simp at hs
+  | closeMarkDone i =>
+    simp only [step] at hs
+    split at hs
+    · rename_i hi
+      simp only [Option.some.injEq, Prod.mk.injEq] at hs
+      obtain ⟨rfl, _⟩ := hs
+      refine ⟨fun _ => rfl, id, id, ?_, fun x => any_set_of_not _ i _ _ hi rfl x⟩
+      intro c hc
+      rcases mem_setStage hc with rfl | hm
+      · exact Or.inr (by simp [WFc])
+      · exact Or.inl hm
+    · simp at hs
+  | closeShutdown i =>
+    simp only [step] at hs
+    split at hs
+    · rename_i hi
+      simp only [Option.some.injEq, Prod.mk.injEq] at hs
+      obtain ⟨rfl, _⟩ := hs
+      refine ⟨fun _ => rfl, fun _ => rfl, id, ?_, fun x => any_set_of_not _ i _ _ hi rfl x⟩
+      intro c hc
+      rcases mem_setStage hc with rfl | hm
+      · exact Or.inr (by simp [WFc])
+      · exact Or.inl hm
+    · rename_i hi
+      simp only [Option.some.injEq, Prod.mk.injEq] at hs
+      obtain ⟨rfl, _⟩ := hs
+      have hd : h.done = true := (hw _ (List.mem_of_getElem? hi)).1 rfl
+      refine ⟨id, fun _ => rfl, id, ?_, fun x => any_set_of_not _ i _ _ hi rfl x⟩
+      intro c hc
+      rcases mem_setStage hc with rfl | hm
+      · exact Or.inr ⟨by simp, fun _ => ⟨hd, rfl⟩, by simp⟩
+      · exact Or.inl hm
+    · simp at hs
+  | closeFinish i =>
+    simp only [step] at hs
+    split at hs
+    · rename_i sync hi
+      simp only [Option.some.injEq, Prod.mk.injEq] at hs
+      obtain ⟨rfl, _⟩ := hs
+      obtain ⟨hd, ht⟩ := (hw _ (List.mem_of_getElem? hi)).2.1 rfl
+      refine ⟨id, id, fun _ => rfl, ?_, fun x => any_set_of_not _ i _ _ hi rfl x⟩
+      intro c hc
+      rcases mem_setStage hc with rfl | hm
+      · exact Or.inr ⟨by simp, by simp, fun _ => ⟨hd, ht, rfl⟩⟩
+      · exact Or.inl hm
+    · simp at hs
+  | closeAbort i =>
+    simp only [step] at hs
+    split at hs
+    all_goals first
+      | (rename_i hi
+         simp only [Option.some.injEq, Prod.mk.injEq] at hs
+         obtain ⟨rfl, _⟩ := hs
+         refine ⟨id, id, id, ?_, fun x => any_set_of_not _ i _ _ hi rfl x⟩
+         intro c hc
+         rcases mem_setStage hc with rfl | hm
+         · exact Or.inr (WFc_aborted _ _)
+         · exact Or.inl hm)
+      | simp at hs
 
-theorem mid_run (bs : List Block) (hb : ∀ b ∈ bs, b.mid = true) :
-    ∀ (h h' : Host) (o : List Out), run h bs = some (h', o) →
-      h'.done = h.done ∧ h'.stage = h.stage ∧ h'.registry = h.registry ∧ h'.transportsClosed = h.transportsClosed
-        ∧ count isGoodbye o = 0 := by
+/-- `WF` is an invariant of the machine -/
+theorem WF_step (h : Host) (b : Block) (h' : Host) (o : List Out) (hw : WF h) (hs : step h b = some (h', o)) : WF h' := by
+  have sm := step_summary h b h' o hw hs
+  intro c hc
+  rcases sm.closes c hc with hm | hn
+  · exact WFc_mono sm.done_mono sm.tc_mono sm.cu_mono (hw c hm)
+  · exact hn
+
+theorem WF_run (bs : List Block) : ∀ (h h' : Host) (o : List Out), WF h → run h bs = some (h', o) → WF h' := by
   induction bs with
   | nil =>
-    intro h h' o hr
+    intro h h' o hw hr
     simp only [run, Option.some.injEq, Prod.mk.injEq] at hr
-    obtain ⟨rfl, rfl⟩ := hr
-    exact ⟨rfl, rfl, rfl, rfl, rfl⟩
+    obtain ⟨rfl, _⟩ := hr
+    exact hw
   | cons b rest ih =>
-    intro h h' o hr
+    intro h h' o hw hr
     simp only [run, bind, Option.bind] at hr
     cases h1 : step h b with
     | none => simp [h1] at hr
@@ -134,10 +351,8 @@ theorem mid_run (bs : List Block) (hb : ∀ b ∈ bs, b.mid = true) :
       | some v2 =>
         obtain ⟨s2, o2⟩ := v2
         simp only [h2, pure, Option.some.injEq, Prod.mk.injEq] at hr
-        obtain ⟨rfl, rfl⟩ := hr
-        obtain ⟨a1, a2, a3, a4, a5⟩ := mid_step h b (hb b (by simp)) s1 o1 h1
-        obtain ⟨b1, b2, b3, b4, b5⟩ := ih (fun x hx => hb x (by simp [hx])) s1 s2 o2 h2
-        exact ⟨b1.trans a1, b2.trans a2, b3.trans a3, b4.trans a4, by rw [count_append, a5, b5]⟩
+        obtain ⟨rfl, _⟩ := hr
+        exact ih s1 s2 o2 (WF_step h b s1 o1 hw h1) h2
 
 theorem run_append (a b : List Block) : ∀ h : Host,
     run h (a ++ b) = (run h a).bind (fun r => (run r.1 b).bind (fun r2 => some (r2.1, r.2 ++ r2.2))) := by
@@ -161,8 +376,8 @@ theorem run_append (a b : List Block) : ∀ h : Host,
         | none => rfl
         | some z => simp [List.append_assoc]
 
-/-- one close block followed by mid blocks -/
-theorem run_cons_mid (h : Host) (c : Block) (m : List Block) (h' : Host) (o : List Out)
+/-- one block followed by more -/
+theorem run_cons (h : Host) (c : Block) (m : List Block) (h' : Host) (o : List Out)
     (hr : run h (c :: m) = some (h', o)) :
     ∃ h1 o1 o2, step h c = some (h1, o1) ∧ run h1 m = some (h', o2) ∧ o = o1 ++ o2 := by
   simp only [run, bind, Option.bind] at hr
@@ -178,5 +393,357 @@ theorem run_cons_mid (h : Host) (c : Block) (m : List Block) (h' : Host) (o : Li
       simp only [h2, pure, Option.some.injEq, Prod.mk.injEq] at hr
       obtain ⟨rfl, rfl⟩ := hr
       exact ⟨s1, o1, o2, rfl, h2, rfl⟩
+
+/-! ### the registry stays empty; the frame around close `0` -/
+
+theorem noCompletion_registry (h : Host) (b : Block) (hb : b.noCompletion = true) (h' : Host) (o : List Out)
+    (hs : step h b = some (h', o)) (hr : h.registry = 0) : h'.registry = 0 := by
+  cases b with
+  | probeStep l =>
+    cases l with
+    | true => simp [Block.noCompletion] at hb
+    | false =>
+      simp only [step] at hs
+      split at hs
+      · simp at hs
+      · simp only [Bool.false_eq_true, ↓reduceIte, Option.some.injEq, Prod.mk.injEq] at hs
+        obtain ⟨rfl, _⟩ := hs
+        exact hr
+  | closeCall sync =>
+    simp only [step] at hs
+    split at hs
+    · simp only [Option.some.injEq, Prod.mk.injEq] at hs
+      obtain ⟨rfl, _⟩ := hs
+      exact hr
+    · simp only [Option.some.injEq, Prod.mk.injEq] at hs
+      obtain ⟨rfl, _⟩ := hs
+      simp [closeBody]
+  | closeWake i t =>
+    simp only [step] at hs
+    split at hs
+    · split at hs
+      · simp only [Option.some.injEq, Prod.mk.injEq] at hs
+        obtain ⟨rfl, _⟩ := hs
+        simp [closeBody, Host.setStage]
+      · split at hs
+        · simp at hs
+        · split at hs
+          · simp only [Option.some.injEq, Prod.mk.injEq] at hs
+            obtain ⟨rfl, _⟩ := hs
+            simpa [Host.setStage] using hr
+          · simp only [Option.some.injEq, Prod.mk.injEq] at hs
+            obtain ⟨rfl, _⟩ := hs
+            simp [closeBody, Host.setStage]
+    · simp at hs
+  | recv s q d u =>
+    simp only [step] at hs
+    split at hs
+    · simp at hs
+    · simp only [Option.some.injEq, Prod.mk.injEq] at hs
+      obtain ⟨rfl, _⟩ := hs
+      exact hr
+  | outqFire r =>
+    simp only [step] at hs
+    split at hs
+    · simp at hs
+    · simp only [Option.some.injEq, Prod.mk.injEq] at hs
+      obtain ⟨rfl, _⟩ := hs
+      exact hr
+  | tcFire s q =>
+    simp only [step] at hs
+    split at hs
+    · simp at hs
+    · simp only [Option.some.injEq, Prod.mk.injEq] at hs
+      obtain ⟨rfl, _⟩ := hs
+      exact hr
+  | schedFire i q =>
+    simp only [step] at hs
+    split at hs
+    · simp at hs
+    · split at hs
+      · simp at hs
+      · split at hs <;>
+        · simp only [Option.some.injEq, Prod.mk.injEq] at hs
+          obtain ⟨rfl, _⟩ := hs
+          exact hr
+  | cleanupFire e =>
+    simp only [step] at hs
+    split at hs
+    · simp at hs
+    · simp only [Option.some.injEq, Prod.mk.injEq] at hs
+      obtain ⟨rfl, _⟩ := hs
+      exact hr
+  | announceStep l =>
+    simp only [step] at hs
+    split at hs
+    · simp at hs
+    · simp only [Option.some.injEq, Prod.mk.injEq] at hs
+      obtain ⟨rfl, _⟩ := hs
+      split <;> exact hr
+  | lookupStep s f =>
+    simp only [step] at hs
+    split at hs
+    · simp at hs
+    · simp only [Option.some.injEq, Prod.mk.injEq] at hs
+      obtain ⟨rfl, _⟩ := hs
+      split <;> exact hr
+  | startUp =>
+    simp only [step] at hs
+    split at hs
+    · simp at hs
+    · simp only [Option.some.injEq, Prod.mk.injEq] at hs
+      obtain ⟨rfl, _⟩ := hs
+      exact hr
+  | apiCall k =>
+    simp only [step] at hs
+    split at hs
+    · simp only [Option.some.injEq, Prod.mk.injEq] at hs
+      obtain ⟨rfl, _⟩ := hs
+      exact hr
+    · split at hs
+      · simp at hs
+      · cases k <;>
+        · simp only [Option.some.injEq, Prod.mk.injEq] at hs
+          obtain ⟨rfl, _⟩ := hs
+          exact hr
+  | closeGoodbye i =>
+    simp only [step] at hs
+    split at hs
+    · simp only [Option.some.injEq, Prod.mk.injEq] at hs
+      obtain ⟨rfl, _⟩ := hs
+      simpa [Host.setStage] using hr
+    · simp at hs
+  | closeMarkDone i =>
+    simp only [step] at hs
+    split at hs
+    · simp only [Option.some.injEq, Prod.mk.injEq] at hs
+      obtain ⟨rfl, _⟩ := hs
+      simpa [Host.setStage] using hr
+    · simp at hs
+  | closeShutdown i =>
+    simp only [step] at hs
+    split at hs
+    · simp only [Option.some.injEq, Prod.mk.injEq] at hs
+      obtain ⟨rfl, _⟩ := hs
+      simpa [Host.setStage] using hr
+    · simp only [Option.some.injEq, Prod.mk.injEq] at hs
+      obtain ⟨rfl, _⟩ := hs
+      simpa [Host.setStage] using hr
+    · simp at hs
+  | closeFinish i =>
+    simp only [step] at hs
+    split at hs
+    · simp only [Option.some.injEq, Prod.mk.injEq] at hs
+      obtain ⟨rfl, _⟩ := hs
+      simpa [Host.setStage] using hr
+    · simp at hs
+  | closeAbort i =>
+    simp only [step] at hs
+    split at hs
+    all_goals first
+      | (simp only [Option.some.injEq, Prod.mk.injEq] at hs
+         obtain ⟨rfl, _⟩ := hs
+         simpa [Host.setStage] using hr)
+      | simp at hs
+
+theorem noCompletion_run (bs : List Block) (hb : ∀ b ∈ bs, b.noCompletion = true) :
+    ∀ (h h' : Host) (o : List Out), run h bs = some (h', o) → h.registry = 0 → h'.registry = 0 := by
+  induction bs with
+  | nil =>
+    intro h h' o hr h0
+    simp only [run, Option.some.injEq, Prod.mk.injEq] at hr
+    obtain ⟨rfl, _⟩ := hr
+    exact h0
+  | cons b rest ih =>
+    intro h h' o hr h0
+    obtain ⟨s1, o1, o2, h1, h2, _⟩ := run_cons h b rest h' o hr
+    exact ih (fun x hx => hb x (by simp [hx])) s1 h' o2 h2 (noCompletion_registry h b (hb b (by simp)) s1 o1 h1 h0)
+
+theorem getElem?_zero_set_ne (l : List Close) (i : Nat) (x : Close) (hi : i ≠ 0) : (l.set i x)[0]? = l[0]? := by
+  cases l with
+  | nil => simp
+  | cons a r =>
+    cases i with
+    | zero => exact absurd rfl hi
+    | succ j => simp [List.set]
+
+theorem getElem?_zero_append (l : List Close) (x c : Close) (h0 : l[0]? = some c) : (l ++ [x])[0]? = some c := by
+  cases l with
+  | nil => simp at h0
+  | cons a r => simpa using h0
+
+/-- the frame of a `mid` block around close `0` -/
+theorem mid_step (h : Host) (b : Block) (hb : b.mid = true) (nog : ∀ i, b ≠ .closeGoodbye i) (c0 : Close)
+    (h0 : h.closes[0]? = some c0) (hreg : h.registry = 0) (h' : Host) (o : List Out) (hs : step h b = some (h', o)) :
+    h'.done = h.done ∧ h'.transportsClosed = h.transportsClosed ∧ h'.registry = 0 ∧ h'.closes[0]? = some c0
+      ∧ count isGoodbye o = 0 := by
+  have hbody : ∀ s, count isGoodbye (closeBody h s).2.1 = 0 := by
+    intro s; simp [closeBody, hreg, count]
+  cases b with
+  | recv s q d u =>
+    simp only [step] at hs
+    split at hs
+    · simp at hs
+    · simp only [Option.some.injEq, Prod.mk.injEq] at hs
+      obtain ⟨rfl, rfl⟩ := hs
+      refine ⟨rfl, rfl, hreg, h0, ?_⟩
+      rw [count_append, gated_no_goodbye h _ (count_replicate_send s), count_notify]
+  | outqFire r =>
+    simp only [step] at hs
+    split at hs
+    · simp at hs
+    · simp only [Option.some.injEq, Prod.mk.injEq] at hs
+      obtain ⟨rfl, rfl⟩ := hs
+      refine ⟨rfl, rfl, hreg, h0, gated_no_goodbye h _ ?_⟩
+      split <;> simp [count, isGoodbye]
+  | tcFire s q =>
+    simp only [step] at hs
+    split at hs
+    · simp at hs
+    · simp only [Option.some.injEq, Prod.mk.injEq] at hs
+      obtain ⟨rfl, rfl⟩ := hs
+      exact ⟨rfl, rfl, hreg, h0, gated_no_goodbye h _ (count_replicate_send s)⟩
+  | schedFire i q =>
+    simp only [step] at hs
+    split at hs
+    · simp at hs
+    · split at hs
+      · simp at hs
+      · split at hs
+        · simp only [Option.some.injEq, Prod.mk.injEq] at hs
+          obtain ⟨rfl, rfl⟩ := hs
+          exact ⟨rfl, rfl, hreg, h0, rfl⟩
+        · simp only [Option.some.injEq, Prod.mk.injEq] at hs
+          obtain ⟨rfl, rfl⟩ := hs
+          exact ⟨rfl, rfl, hreg, h0, gated_no_goodbye h _ (count_replicate_send q)⟩
+  | cleanupFire e =>
+    simp only [step] at hs
+    split at hs
+    · simp at hs
+    · simp only [Option.some.injEq, Prod.mk.injEq] at hs
+      obtain ⟨rfl, rfl⟩ := hs
+      exact ⟨rfl, rfl, hreg, h0, count_notify h e⟩
+  | probeStep l =>
+    cases l with
+    | true => simp [Block.mid] at hb
+    | false =>
+      simp only [step] at hs
+      split at hs
+      · simp at hs
+      · simp only [Bool.false_eq_true, ↓reduceIte, Option.some.injEq, Prod.mk.injEq] at hs
+        obtain ⟨rfl, rfl⟩ := hs
+        exact ⟨rfl, rfl, hreg, h0, gated_no_goodbye h _ (by simp [count, isGoodbye])⟩
+  | announceStep l =>
+    simp only [step] at hs
+    split at hs
+    · simp at hs
+    · simp only [Option.some.injEq, Prod.mk.injEq] at hs
+      obtain ⟨rfl, rfl⟩ := hs
+      refine ⟨?_, ?_, ?_, ?_, gated_no_goodbye h _ (by simp [count, isGoodbye])⟩ <;> split <;> first | rfl | exact hreg | exact h0
+  | lookupStep s f =>
+    simp only [step] at hs
+    split at hs
+    · simp at hs
+    · simp only [Option.some.injEq, Prod.mk.injEq] at hs
+      obtain ⟨rfl, rfl⟩ := hs
+      refine ⟨?_, ?_, ?_, ?_, gated_no_goodbye h _ (count_replicate_send s)⟩ <;> split <;> first | rfl | exact hreg | exact h0
+  | startUp =>
+    simp only [step] at hs
+    split at hs
+    · simp at hs
+    · simp only [Option.some.injEq, Prod.mk.injEq] at hs
+      obtain ⟨rfl, rfl⟩ := hs
+      exact ⟨rfl, rfl, hreg, h0, rfl⟩
+  | apiCall k =>
+    simp only [step] at hs
+    split at hs
+    · simp only [Option.some.injEq, Prod.mk.injEq] at hs
+      obtain ⟨rfl, rfl⟩ := hs
+      exact ⟨rfl, rfl, hreg, h0, rfl⟩
+    · split at hs
+      · simp at hs
+      · cases k <;>
+        · simp only [Option.some.injEq, Prod.mk.injEq] at hs
+          obtain ⟨rfl, rfl⟩ := hs
+          exact ⟨rfl, rfl, hreg, h0, rfl⟩
+  | closeCall sync =>
+    simp only [step] at hs
+    split at hs
+    · simp only [Option.some.injEq, Prod.mk.injEq] at hs
+      obtain ⟨rfl, rfl⟩ := hs
+      exact ⟨rfl, rfl, hreg, getElem?_zero_append _ _ _ h0, rfl⟩
+    · simp only [Option.some.injEq, Prod.mk.injEq] at hs
+      obtain ⟨rfl, rfl⟩ := hs
+      refine ⟨by simp [closeBody], by simp [closeBody], by simp [closeBody], ?_, hbody _⟩
+      exact getElem?_zero_append _ _ _ h0
+  | closeWake i t =>
+    have hi : i ≠ 0 := by simpa [Block.mid] using hb
+    simp only [step] at hs
+    split at hs
+    · split at hs
+      · simp only [Option.some.injEq, Prod.mk.injEq] at hs
+        obtain ⟨rfl, rfl⟩ := hs
+        refine ⟨by simp [closeBody, Host.setStage], by simp [closeBody, Host.setStage], by simp [closeBody, Host.setStage], ?_, hbody _⟩
+        simp only [Host.setStage, closeBody]
+        rw [getElem?_zero_set_ne _ _ _ hi]; exact h0
+      · split at hs
+        · simp at hs
+        · split at hs
+          · simp only [Option.some.injEq, Prod.mk.injEq] at hs
+            obtain ⟨rfl, rfl⟩ := hs
+            refine ⟨rfl, rfl, hreg, ?_, rfl⟩
+            simp only [Host.setStage]
+            rw [getElem?_zero_set_ne _ _ _ hi]; exact h0
+          · simp only [Option.some.injEq, Prod.mk.injEq] at hs
+            obtain ⟨rfl, rfl⟩ := hs
+            refine ⟨by simp [closeBody, Host.setStage], by simp [closeBody, Host.setStage], by simp [closeBody, Host.setStage], ?_, hbody _⟩
+            simp only [Host.setStage, closeBody]
+            rw [getElem?_zero_set_ne _ _ _ hi]; exact h0
+    · simp at hs
+  | closeGoodbye i => exact absurd rfl (nog i)
+  | closeMarkDone i => simp [Block.mid] at hb
+  | closeShutdown i => simp [Block.mid] at hb
+  | closeFinish i =>
+    have hi : i ≠ 0 := by simpa [Block.mid] using hb
+    simp only [step] at hs
+    split at hs
+    · simp only [Option.some.injEq, Prod.mk.injEq] at hs
+      obtain ⟨rfl, rfl⟩ := hs
+      refine ⟨rfl, rfl, hreg, ?_, rfl⟩
+      simp only [Host.setStage]
+      rw [getElem?_zero_set_ne _ _ _ hi]; exact h0
+    · simp at hs
+  | closeAbort i =>
+    have hi : i ≠ 0 := by simpa [Block.mid] using hb
+    simp only [step] at hs
+    split at hs
+    all_goals first
+      | (simp only [Option.some.injEq, Prod.mk.injEq] at hs
+         obtain ⟨rfl, rfl⟩ := hs
+         refine ⟨rfl, rfl, hreg, ?_, by simp [count, isGoodbye]⟩
+         simp only [Host.setStage]
+         rw [getElem?_zero_set_ne _ _ _ hi]; exact h0)
+      | simp at hs
+
+theorem mid_run (bs : List Block) (hb : ∀ b ∈ bs, b.mid3 = true) (c0 : Close) :
+    ∀ (h h' : Host) (o : List Out), run h bs = some (h', o) → h.closes[0]? = some c0 → h.registry = 0 →
+      h'.done = h.done ∧ h'.transportsClosed = h.transportsClosed ∧ h'.registry = 0 ∧ h'.closes[0]? = some c0
+        ∧ count isGoodbye o = 0 := by
+  induction bs with
+  | nil =>
+    intro h h' o hr h0 hreg
+    simp only [run, Option.some.injEq, Prod.mk.injEq] at hr
+    obtain ⟨rfl, rfl⟩ := hr
+    exact ⟨rfl, rfl, hreg, h0, rfl⟩
+  | cons b rest ih =>
+    intro h h' o hr h0 hreg
+    obtain ⟨s1, o1, o2, h1, h2, rfl⟩ := run_cons h b rest h' o hr
+    have hb1 := hb b (by simp)
+    simp only [Block.mid3, Bool.and_eq_true] at hb1
+    have nog : ∀ i, b ≠ .closeGoodbye i := by
+      intro i e; rw [e] at hb1; simp at hb1
+    obtain ⟨a1, a2, a3, a4, a5⟩ := mid_step h b hb1.1 nog c0 h0 hreg s1 o1 h1
+    obtain ⟨b1, b2, b3, b4, b5⟩ := ih (fun x hx => hb x (by simp [hx])) s1 h' o2 h2 a4 a3
+    exact ⟨b1.trans a1, b2.trans a2, b3, b4, by rw [count_append, a5, b5]⟩
 
 end Zc.Shutdown
